@@ -1133,8 +1133,9 @@ impl<T: PackedInt> IntVec<T> {
         let mut max_delta = 0u64;
         let mut valid_delta = true;
 
-        // Sample every 16th delta for fast analysis
-        let sample_step = (values.len() / 16).max(1);
+        // Every adjacent delta counts: the width must hold the largest one
+        // (sampling strides missed the elements after the last sample)
+        let sample_step = 1;
         
         for i in (sample_step..values.len()).step_by(sample_step) {
             if let Some(delta) = values[i].checked_sub(values[i-sample_step]) {
@@ -1165,8 +1166,9 @@ impl<T: PackedInt> IntVec<T> {
             return true;
         }
         
-        // Sample every 16th element for fast sorted detection
-        let sample_step = (values.len() / 16).max(1);
+        // Every element must be checked: delta encoding of an unsorted input
+        // (sorted only at the sampled positions) returns wrong values
+        let sample_step = 1;
         let mut prev = values[0];
         
         for i in (sample_step..values.len()).step_by(sample_step) {
